@@ -681,6 +681,154 @@ def sectionOracle (m : MeshF) (sd : V3 Rat → Rat) (colF : Option (V3 Float →
        then "fail crossed-edge-without-polyline-vertex" else "pass")
   | _ => "fail unparsable-output"
 
+/-! ### intersect_meshes and TriMesh::intersection_with_{local_cuboid, cuboid, aabb} (oracle-only) -/
+
+/-- a closed solid operand: its mesh in local coordinates, its pose, and — when it is not convex — boxes whose union it is -/
+structure Solid where
+  pose : Iso3 Rat
+  pts : Array (V3 Rat)
+  tris : List Tri
+  parts : List (Aabb3 Rat)
+  /-- face planes `(n, n·a, n·n)` with `n = (b-a)×(c-a)` the outward scaled normal -/
+  planes : List (V3 Rat × Rat × Rat)
+
+def facePlanes (pts : Array (V3 Rat)) (tris : List Tri) : List (V3 Rat × Rat × Rat) :=
+  tris.filter (fun (a, b, c) => a < pts.size && b < pts.size && c < pts.size) |>.map fun t =>
+    let (a, b, c) := triPts pts t
+    let n := (b.sub a).cross (c.sub a)
+    (n, n.dot a, n.normSq)
+
+def psolid : P (Bool × List (V3 Float) × List Tri × List (Aabb3 Float)) := do
+  let cc ← pbool; let p ← ppts; let t ← ptris; let parts ← plist paabb3; pure (cc, p, t, parts)
+
+def boxMesh (he : V3 Rat) : Array (V3 Rat) × List Tri :=
+  -- corners indexed by bits (x, y, z); faces outward
+  let c : List (V3 Rat) := [0, 1, 2, 3, 4, 5, 6, 7].map fun k =>
+    ⟨if k % 2 == 0 then -he.x else he.x, if (k / 2) % 2 == 0 then -he.y else he.y, if k / 4 == 0 then -he.z else he.z⟩
+  (c.toArray, [(0, 2, 1), (1, 2, 3), (4, 5, 6), (5, 7, 6), (0, 1, 4), (1, 5, 4), (2, 6, 3), (3, 6, 7), (0, 4, 2), (2, 4, 6), (1, 3, 5), (3, 7, 5)])
+
+namespace Solid
+def volume6 (s : Solid) : Rat := signedVol6 s.pts s.tris
+def world (s : Solid) : List (V3 Rat) := s.pts.toList.map s.pose.act
+/-- signed excess of the local point `p` over the face planes, compared with `margin` (a length):
+`∀ faces, n·(p - a) ≤ margin·|n|` decided on squares -/
+def inFaces (s : Solid) (p : V3 Rat) (margin : Rat) : Bool :=
+  let m2 := margin * margin
+  s.planes.all fun (n, na, nn) =>
+    let d := n.dot p - na
+    if margin ≥ 0 then d ≤ 0 || d * d ≤ m2 * nn
+    else d < 0 && d * d ≥ m2 * nn
+def inPart (b : Aabb3 Rat) (p : V3 Rat) (margin : Rat) : Bool :=
+  (List.range 3).all fun i => b.mins.get i - margin ≤ p.get i && p.get i ≤ b.maxs.get i + margin
+/-- convex ⇔ every vertex is on the inner side of every face plane -/
+def isConvex (s : Solid) : Bool := s.pts.toList.all fun p => s.inFaces p (1 / 1000000000)
+/-- the world point `p` is in the solid, enlarged (`margin > 0`) or shrunk (`margin < 0`) by `margin`; `none` = cannot tell -/
+def mem (s : Solid) (p : V3 Rat) (margin : Rat) : Bool :=
+  let q := s.pose.invAct p
+  if s.parts.isEmpty then s.inFaces q margin else s.parts.any fun b => inPart b q margin
+/-- all of the given world points are strictly inside one convex piece of `s` (so their hull is) -/
+def containsAll (s : Solid) (ps : List (V3 Rat)) (margin : Rat) : Bool :=
+  let qs := ps.map s.pose.invAct
+  if s.parts.isEmpty then qs.all fun q => s.inFaces q (-margin)
+  else s.parts.any fun b => qs.all fun q => inPart b q (-margin)
+end Solid
+
+def bbox (ps : List (V3 Rat)) : Aabb3 Rat :=
+  match ps with
+  | [] => ⟨⟨0, 0, 0⟩, ⟨0, 0, 0⟩⟩
+  | p :: rest => rest.foldl (fun b q => ⟨⟨min b.mins.x q.x, min b.mins.y q.y, min b.mins.z q.z⟩, ⟨max b.maxs.x q.x, max b.maxs.y q.y, max b.maxs.z q.z⟩⟩) ⟨p, p⟩
+/-- the solid is (in world space) exactly the axis-aligned box of its 8 vertices -/
+def isWorldBox (s : Solid) : Bool :=
+  let w := s.world
+  let b := bbox w
+  w.length == 8 && s.tris.length == 12 && w.eraseDups.length == 8 && s.isConvex &&
+    w.all fun p => (List.range 3).all fun i => p.get i == b.mins.get i || p.get i == b.maxs.get i
+
+/-- reference value of `vol(A ∩ B)·6` decided from the operands alone: exact (`lo = hi`) when one operand is strictly inside
+the other (all its vertices inside one convex piece), when their bounding boxes are disjoint, or when both are axis-aligned
+boxes in world space; for two convex operands in general position a rigorous interval: upper bound `min(vol A, vol B)`, lower
+bound the total volume of the cells of an 8×8×8 grid whose eight corners are strictly inside both (convexity). -/
+def refVolume6 (A B : Solid) (scale : Rat) : Option (Rat × Rat × String) :=
+  let m := scale / 1000000
+  let wa := A.world; let wb := B.world
+  let ba := bbox wa; let bb := bbox wb
+  let ov (i : Nat) : Rat := min (ba.maxs.get i) (bb.maxs.get i) - max (ba.mins.get i) (bb.mins.get i)
+  if (List.range 3).any (fun i => ov i < -m) then some (0, 0, "disjoint") else
+  if B.containsAll wa m then some (A.volume6, A.volume6, "nested") else
+  if A.containsAll wb m then some (B.volume6, B.volume6, "nested") else
+  if isWorldBox A && isWorldBox B then
+    (if (List.range 3).any (fun i => rabs (ov i) ≤ m) then none
+     else let v := 6 * ov 0 * ov 1 * ov 2; some (v, v, "box-box"))
+  else if A.parts.isEmpty && B.parts.isEmpty && A.isConvex && B.isConvex then
+    let lo : V3 Rat := ⟨max ba.mins.x bb.mins.x, max ba.mins.y bb.mins.y, max ba.mins.z bb.mins.z⟩
+    let n : Nat := 8
+    let step : V3 Rat := ⟨ov 0 / (n : Rat), ov 1 / (n : Rat), ov 2 / (n : Rat)⟩
+    let inside : Array Bool := ((List.range ((n + 1) * (n + 1) * (n + 1))).map fun k =>
+      let p : V3 Rat := ⟨lo.x + step.x * ((k % (n + 1) : Nat) : Rat), lo.y + step.y * (((k / (n + 1)) % (n + 1) : Nat) : Rat), lo.z + step.z * ((k / ((n + 1) * (n + 1)) : Nat) : Rat)⟩
+      A.mem p (-m) && B.mem p (-m)).toArray
+    let cells := (List.range (n * n * n)).filter fun c =>
+      let (i, j, k) := (c % n, (c / n) % n, c / (n * n))
+      [0, 1].all fun di => [0, 1].all fun dj => [0, 1].all fun dk =>
+        inside[(i + di) + (n + 1) * ((j + dj) + (n + 1) * (k + dk))]!
+    some (6 * step.x * step.y * step.z * (cells.length : Rat), min A.volume6 B.volume6, "convex-pair")
+  else none
+
+/-- oracle for `intersect_meshes` / `intersection_with_*cuboid*`: `frame` maps the result's coordinates to world space.
+`None` ⇒ the reference volume must allow an empty intersection. `Some(mesh)` ⇒ finite, valid indices, closed and consistently
+oriented (every directed edge once, its opposite once), positive volume, every vertex within `1e-6` of both operands, and the
+volume equal to the reference (relative `1e-6`) or inside the reference interval. -/
+def isectOracle (A B : Solid) (frame : Iso3 Rat) (o : List String) : String :=
+  let scale := 1 + (A.world ++ B.world).foldl (fun s p => max s (maxAbs3 p)) 0
+  if !(validIdx A.pts.size A.tris && validIdx B.pts.size B.tris) then "skip bad-mesh" else
+  if A.volume6 ≤ 0 || B.volume6 ≤ 0 then "skip operand-not-outward-oriented" else
+  match refVolume6 A B scale with
+  | none => "skip no-reference-volume"
+  | some (lo, hi, kind) =>
+  let vtol := (1 / 1000000 : Rat) * (hi + 6 / 1000000)
+  match o with
+  | "panic" :: _ => s!"fail panic[{kind}]"
+  | "err" :: e => s!"fail error-{String.intercalate "-" e}[{kind}]"
+  | ["none"] => if lo > vtol then s!"fail none-but-intersection-has-volume[{kind}] vol>={lo / 6}" else s!"pass {kind}-empty"
+  | "some" :: rest =>
+    (match run (do let m ← pmeshOut; pend; pure m) rest with
+     | none => "fail unparsable-output"
+     | some (vp, ts) =>
+       if !(vp.all finite3) then "fail nonfinite-output" else
+       let V := (vp.map q3).toArray
+       if !validIdx V.size ts then "fail index-out-of-range" else
+       if ts.isEmpty then "fail empty-mesh" else
+       if hi ≤ vtol && kind == "disjoint" then s!"fail some-but-operands-disjoint[{kind}]" else
+       if !closedOriented ts then
+         -- a hole is a *sliver* when two end points of its unmatched edges (nearly) coincide and the missing area is
+         -- negligible: the tolerance-driven deletion of near-degenerate sub-triangles (KNOWN_FINDINGS); any other hole is not
+         let edges := ts.flatMap fun (a, b, c) => [(a, b), (b, c), (c, a)]
+         let bad := edges.filter fun (a, b) => (edges.filter (· == (a, b))).length != 1 || (edges.filter (· == (b, a))).length != 1
+         let U := (bad.flatMap fun (a, b) => [a, b]).eraseDups
+         let bb := bbox V.toList
+         let d2 := (bb.maxs.sub bb.mins).normSq
+         let close := U.any fun i => U.any fun j => i < j && (V[i]!.sub V[j]!).normSq * 1000000 ≤ d2
+         let va := vecArea V ts
+         if close && bad.length ≤ 24 && maxAbs3 va * 2000 ≤ d2 then s!"fail result-not-closed-oriented[sliver-hole] [{kind}]"
+         else s!"fail result-not-closed-oriented[{kind}]" else
+       let v6 := signedVol6 V ts
+       if v6 ≤ 0 then s!"fail result-volume-not-positive[{kind}]" else
+       let W := V.toList.map frame.act
+       let m := scale / 1000000
+       match W.filter (fun p => !A.mem p m) with
+       | p :: _ => s!"fail vertex-outside-first-operand[{kind}] ({p.x},{p.y},{p.z})"
+       | [] =>
+       match W.filter (fun p => !B.mem p m) with
+       | p :: _ => s!"fail vertex-outside-second-operand[{kind}] ({p.x},{p.y},{p.z})"
+       | [] =>
+       if v6 < lo - vtol || v6 > hi + vtol then s!"fail wrong-volume[{kind}] got={v6 / 6} expected∈[{lo / 6},{hi / 6}]" else s!"pass {kind}")
+  | _ => "fail unparsable-output"
+
+def mkSolid (x : Bool × List (V3 Float) × List Tri × List (Aabb3 Float)) (pose : Iso3 Float) : Solid :=
+  let pts := (x.2.1.map q3).toArray
+  ⟨qiso3 pose, pts, x.2.2.1, x.2.2.2.map qaabb3, facePlanes pts x.2.2.1⟩
+def unitQ (m : Iso3 Float) : Bool :=
+  let M := qiso3 m; nearR (M.qi * M.qi + M.qj * M.qj + M.qk * M.qk + M.qw * M.qw) 1
+
 def handler (fn : String) : Option Handler :=
   match fn with
   | "aabb_split" => some {
@@ -768,6 +916,25 @@ def handler (fn : String) : Option Handler :=
           if q eps < 0 then "skip negative-epsilon" else
           if !nearR N.normSq 1 then "skip non-unit-normal" else
           sectionOracle m (fun p => N.dot p - bi) (some (colourFloat n bias eps)) (q eps) (meshScale m bi) o
+        | none => "skip bad-args" }
+  | "mesh_isect" => some {
+      model := fun _ => some "oracle-only"
+      oracle := fun a o => match run (do let s1 ← psolid; let p1 ← piso3; let s2 ← psolid; let p2 ← piso3; pend; pure (s1, p1, s2, p2)) a with
+        | some (s1, p1, s2, p2) =>
+          if !(s1.2.1.all finite3 && s2.2.1.all finite3 && finite3 p1.t && finite3 p2.t) then "skip nonfinite-input" else
+          if !(unitQ p1 && unitQ p2) then "skip non-unit-quaternion" else
+          -- the result of `intersect_meshes` is expressed in world space
+          isectOracle (mkSolid s1 p1) (mkSolid s2 p2) Iso3.identity o
+        | none => "skip bad-args" }
+  | "isect_cuboid" => some {
+      model := fun _ => some "oracle-only"
+      oracle := fun a o => match run (do let v ← pnat; let s ← psolid; let pm ← piso3; let he ← pv3; let pc ← piso3; pend; pure (v, s, pm, he, pc)) a with
+        | some (_, s, pm, he, pc) =>
+          if !(s.2.1.all finite3 && finite3 pm.t && finite3 pc.t && finite3 he) then "skip nonfinite-input" else
+          if !(unitQ pm && unitQ pc) then "skip non-unit-quaternion" else
+          let (bp, bt) := boxMesh (q3 he)
+          -- the result is expressed in the local space of the mesh
+          isectOracle (mkSolid s pm) ⟨qiso3 pc, bp, bt, [], facePlanes bp bt⟩ (qiso3 pm) o
         | none => "skip bad-args" }
   | _ => none
 
